@@ -1004,7 +1004,15 @@ impl<'a> CompilerState<'a> {
             })
             .map_infix(|lhs, op, rhs| {
                 let res = match op.as_rule() {
-                    Rule::mul => lhs.unwrap() * rhs.unwrap(),
+                    Rule::mul => match lhs.unwrap().checked_mul(rhs.unwrap()) {
+                        Some(v) => v,
+                        None => {
+                            return Err(self.syntax_error(
+                                "Arithmetic overflow in constant expression",
+                                op.as_span().start(),
+                            ))
+                        }
+                    },
                     Rule::div => {
                         let d = rhs.unwrap();
                         if d == 0 {
@@ -1013,13 +1021,55 @@ impl<'a> CompilerState<'a> {
                         }
                         lhs.unwrap() / d
                     }
-                    Rule::add => lhs.unwrap() + rhs.unwrap(),
-                    Rule::sub => lhs.unwrap() - rhs.unwrap(),
+                    Rule::add => match lhs.unwrap().checked_add(rhs.unwrap()) {
+                        Some(v) => v,
+                        None => {
+                            return Err(self.syntax_error(
+                                "Arithmetic overflow in constant expression",
+                                op.as_span().start(),
+                            ))
+                        }
+                    },
+                    Rule::sub => match lhs.unwrap().checked_sub(rhs.unwrap()) {
+                        Some(v) => v,
+                        None => {
+                            return Err(self.syntax_error(
+                                "Arithmetic overflow in constant expression",
+                                op.as_span().start(),
+                            ))
+                        }
+                    },
                     Rule::and => lhs.unwrap() & rhs.unwrap(),
                     Rule::or => lhs.unwrap() | rhs.unwrap(),
                     Rule::xor => lhs.unwrap() ^ rhs.unwrap(),
-                    Rule::brs => lhs.unwrap() >> rhs.unwrap(),
-                    Rule::bls => lhs.unwrap() << rhs.unwrap(),
+                    Rule::brs => {
+                        let l = lhs.unwrap();
+                        let r = rhs.unwrap();
+                        let res = if r < 0 { None } else { l.checked_shr(r as u32) };
+                        match res {
+                            Some(v) if true => v,
+                            _ => {
+                                return Err(self.syntax_error(
+                                    "Invalid shift in constant expression",
+                                    op.as_span().start(),
+                                ))
+                            }
+                        }
+                    }
+                    Rule::bls => {
+                        let l = lhs.unwrap();
+                        let r = rhs.unwrap();
+                        let res = if r < 0 { None } else { l.checked_shl(r as u32) };
+                        match res {
+                            Some(v) if (v >> r) == l => v,
+                            _ => {
+                                return Err(self.syntax_error(
+                                    "Invalid shift in constant expression",
+                                    op.as_span().start(),
+                                ))
+                            }
+                        }
+                    }
                     Rule::land => {
                         if lhs.unwrap() != 0 && rhs.unwrap() != 0 {
                             1
@@ -1101,7 +1151,7 @@ impl<'a> CompilerState<'a> {
                 Ok(res)
             })
             .map_prefix(|op, rhs| match op.as_rule() {
-                Rule::neg => Ok(-rhs?),
+                Rule::neg => Ok(rhs?.wrapping_neg()),
                 Rule::not => Ok(if rhs? == 0 { 1 } else { 0 }),
                 Rule::bnot => Ok(!rhs?),
                 _ => unreachable!(),
